@@ -684,7 +684,9 @@ class SimplicialComplex(Hypergraph):
                 dd = {}
 
             if simplex:
-                new_faces = self._subfaces(simplex)
+                # hand the faces over as sets: a set is a member set whatever its
+                # elements are (a tuple of tuple-labelled nodes is not)
+                new_faces = [frozenset(face) for face in self._subfaces(simplex)]
                 self.add_simplices_from(new_faces)
 
     def add_weighted_simplices_from(
